@@ -591,6 +591,19 @@ func runC08(c *Ctx, r *Report) {
 										}
 									}
 								}
+								// a list setter keeps every element: a helper between the argument and the field that filters or
+								// de-duplicates makes the entry differ from the block it was decoded from
+								for v := range backSlice(st.Val, nil) {
+									if call, ok := v.(*ssa.Call); ok {
+										if cal := call.Call.StaticCallee(); cal != nil && cal.Object() != nil {
+											if cf, ok := cal.Object().(*types.Func); ok {
+												if drops, why := mayDropElements(p, p.ByObj[cf]); drops {
+													reshaped = p.Pos(st.Pos()) + " (through " + cf.Name() + ": " + why + ")"
+												}
+											}
+										}
+									}
+								}
 								// a list setter must keep the list's shape: append(nil, list...) turns an empty list into nil,
 								// which the codec writes as null instead of []
 								if call, ok := st.Val.(*ssa.Call); ok {
